@@ -2,9 +2,10 @@ import GeomV.C04.Gen
 /-! C04 — T1 tie: the `Points()` closures of Point, MultiPoint, LineString as rendered from the Go source
 are the model's state machines (`init`/`next`). -/
 set_option linter.unusedVariables false
+set_option linter.unusedSectionVars false
 namespace GeomV.C04
 open GeomV
-variable {α : Type}
+variable {α : Type} [LT α] [DecidableLT α]
 
 theorem C04_tie_Point_Points (p : Pt α) :
     init (.point p) = .ok .pt ∧
